@@ -277,6 +277,110 @@ def gen_policy(rnd, family=None):
     return {"kind": k, "p": rnd.choice([0.5, 0.7, 0.9]), "seed": rnd.randrange(1 << 30), "idle": rnd.choice([0, 0, 2, 5, 10])}
 
 
+def spread_placement(sc, rnd):
+    """compile-level checks only: some jobs start in a further stand-alone buffer, so that the jobs
+    of one buffer are not consecutive in job order (nothing can leave such a buffer: the episodes of
+    these scenarios are cut after a few steps anyway)"""
+    doc = sc["doc"]
+    ic = doc.get("instance_config", {})
+    bl = ic.get("buffer")
+    feats = sc["meta"].get("features", [])
+    if not isinstance(bl, list) or len(bl) < 2 or "alpha_buffer_names" in feats:
+        return False
+    nj = sc["meta"]["nj"] if "nj" in sc["meta"] else len(sc["meta"].get("rows", []))
+    if nj < 3:
+        return False
+    if len(bl) == 2:
+        used = {e["name"] for e in bl}
+        bl.append({"name": next(f"b-{k}" for k in range(90, 130) if f"b-{k}" not in used),
+                   "type": rnd.choice(BUF_TYPES), "role": "compensation", "capacity": nj + 1})
+    third = bl[2]
+    if third.get("role") == "output":
+        return False
+    init = doc.setdefault("init_state", {})
+    for k in [k for k in init if k.startswith("j-")]:
+        del init[k]
+    for e in bl:
+        if isinstance(init.get(e["name"]), dict):
+            init[e["name"]].pop("store", None)
+            if not init[e["name"]]:
+                del init[e["name"]]
+    there = []
+    for j in range(nj):
+        r = rnd.random()
+        if r < 0.35:
+            init[f"j-{j}"] = {"location": third["name"]}
+            there.append(f"j-{j}")
+        elif r < 0.55:
+            init[f"j-{j}"] = {"location": bl[0]["name"]}
+    if "capacity" in third and isinstance(third["capacity"], int):
+        third["capacity"] = max(third["capacity"], len(there) + 1)
+    if there and rnd.random() < 0.5:
+        rnd.shuffle(there)
+        init[third["name"]] = {"store": there}
+    if not init:
+        doc.pop("init_state", None)
+    sc["meta"]["features"] = sorted(set(feats) | {"spread_placement"})
+    sc["dsl"] = yaml.safe_dump(doc, sort_keys=False)
+    return True
+
+
+def staging_placement(sc, rnd):
+    """a further stand-alone buffer with its own row and column in the travel matrix, in which some
+    jobs start (so that an initial location differs from the default input buffer and jobs of one
+    buffer need not be consecutive in job order); only for AGV instances with numeric custom buffers"""
+    doc = sc["doc"]
+    ic = doc.get("instance_config", {})
+    bl = ic.get("buffer")
+    lg = ic.get("logistics")
+    feats = sc["meta"].get("features", [])
+    nj = sc["meta"].get("nj", 0)
+    if not isinstance(lg, dict) or "alpha_buffer_names" in feats or nj < 2:
+        return False
+    if bl is None:
+        bl = ic["buffer"] = [{"name": "b-0", "type": rnd.choice(BUF_TYPES), "role": "input", "description": "in"},
+                             {"name": "b-1", "type": "flex", "role": "output", "description": "out"}]
+        sc["meta"]["ordered_standalone"] = bl[0]["type"] != "flex"
+        feats = list(feats) + ["custom_buffers"]
+    if not isinstance(bl, list) or len(bl) < 2:
+        return False
+    if len(bl) == 2:
+        used = {e["name"] for e in bl}
+        bl.append({"name": next(f"b-{k}" for k in range(90, 130) if f"b-{k}" not in used),
+                   "type": "flex", "role": rnd.choice(["compensation", "input"]), "capacity": nj + 1})
+    third = bl[2]
+    if third.get("role") == "output":
+        return False
+    third["type"] = "flex"
+    lines = [l.strip() for l in lg["specification"].strip().split("\n")]
+    names = lines[0].split("|")
+    if third["name"] in names:
+        return False
+    rows = {l.split("|")[0]: [int(x) for x in l.split("|")[1].split()] for l in lines[1:]}
+    M = [rows[n] + [rnd.randint(0, 6)] for n in names]
+    names2 = names + [third["name"]]
+    M.append([rnd.randint(0, 6) for _ in names] + [0])
+    lg["specification"] = matrix_text(names2, M, rnd)
+    init = doc.setdefault("init_state", {})
+    for k in [k for k in init if k.startswith("j-")]:
+        del init[k]
+    for e in bl:
+        if isinstance(init.get(e["name"]), dict):
+            init[e["name"]].pop("store", None)
+            if not init[e["name"]]:
+                del init[e["name"]]
+    there = [j for j in range(nj) if rnd.random() < 0.45] or [nj - 1]
+    if len(there) == nj:
+        there = there[1:]
+    for j in there:
+        init[f"j-{j}"] = {"location": third["name"]}
+    if isinstance(third.get("capacity"), int):
+        third["capacity"] = max(third["capacity"], len(there) + 1)
+    sc["meta"]["features"] = sorted(set(feats) | {"staging"})
+    sc["dsl"] = yaml.safe_dump(doc, sort_keys=False)
+    return True
+
+
 def gen_scenario(seed, family=None):
     rnd = random.Random(seed)
     family = family or rnd.choice(FAMILIES)
